@@ -337,6 +337,8 @@ impl FixedCapacityMemoryPool {
             }
 
             // Update utilization
+            #[cfg(zipora_verif)]
+            crate::memory::verif_sched::point(crate::memory::verif_sched::FC_ALLOC_UTIL);
             let utilization = (active * 10000 / self.config.total_blocks) as u32;
             stats.utilization.store(utilization, Ordering::Relaxed);
         }
@@ -366,6 +368,8 @@ impl FixedCapacityMemoryPool {
             let active = stats.active_blocks.fetch_sub(1, Ordering::Relaxed) - 1;
             
             // Update utilization
+            #[cfg(zipora_verif)]
+            crate::memory::verif_sched::point(crate::memory::verif_sched::FC_FREE_UTIL);
             let utilization = (active * 10000 / self.config.total_blocks) as u32;
             stats.utilization.store(utilization, Ordering::Relaxed);
         }
